@@ -10,6 +10,7 @@ import (
 func init() {
 	vRegister("VH_C19_Read", VH_C19_Read)
 	vRegister("VH_C19_Write", VH_C19_Write)
+	vRegister("VH_C19_FrameOps", VH_C19_FrameOps)
 }
 
 // vhCancelCtx is a context whose cancellation the harness fires at a point of
@@ -189,5 +190,95 @@ func VH_C19_Write() {
 		} else {
 			vAssert(err == nil, "no-added-failure-mode")
 		}
+	}
+}
+
+// vhStallConn serves a scripted byte stream like vhConn, except that its k-th
+// Read or Write call (k = stallAt) stalls: the context is cancelled while that
+// call is blocked, and the call returns only if that closed the connection.
+type vhStallConn struct {
+	vhConn
+	ctx     *vhCancelCtx
+	stallAt int
+	calls   int
+	hung    bool
+}
+
+func (c *vhStallConn) block() {
+	c.ctx.fire()
+	if !c.closed {
+		c.hung = true // nobody is watching the context for this call
+	}
+}
+
+func (c *vhStallConn) Read(p []byte) (int, error) {
+	c.calls++
+	if c.calls == c.stallAt {
+		c.block()
+		return 0, vhErrClosedConn
+	}
+	if c.closed {
+		return 0, vhErrClosedConn
+	}
+	return c.vhConn.Read(p)
+}
+
+func (c *vhStallConn) Write(p []byte) (int, error) {
+	c.calls++
+	if c.calls == c.stallAt {
+		c.block()
+		return 0, vhErrClosedConn
+	}
+	if c.closed {
+		return 0, vhErrClosedConn
+	}
+	return c.vhConn.Write(p)
+}
+
+// VH_C19_FrameOps: every blocking connection call made by the frame operations
+// (header read, payload read, frame write; plain and keyed) is interruptible: the
+// peer stalls at the k-th call, the context ends while that call is blocked, and
+// the operation returns the context's error with the connection closed. When the
+// peer never stalls the operation completes normally.
+func VH_C19_FrameOps() {
+	ctx := &vhCancelCtx{done: make(chan struct{}), hasDone: true}
+	conn := &vhStallConn{ctx: ctx}
+	var s, peer *Stream
+	pc := &vhConn{}
+	keyed := vBool("keyed")
+	if keyed {
+		peer, s = vhKeyedPair(pc, &vhConn{}, "")
+	} else {
+		peer, s = vhNewStream(pc), vhNewStream(&vhConn{})
+	}
+	s.conn, s.reader, s.writer = conn, conn, conn
+	n := vInt("n")
+	vAssume(n >= 1 && n <= 6)
+	d := vBlob("d", n)
+	if peer.sendMessageWithEnd(vhCtx, d, 1) != nil {
+		vAssume(false)
+	}
+	w := pc.outs[0]
+	conn.feed(w[:5], w[5:]) // header and body arrive separately
+	conn.stallAt = vChoice("stallAt", 4) // 0: never
+	op := vChoice("op", 3)
+	var err error
+	switch op {
+	case 0:
+		_, err = s.ReceiveFrame(ctx)
+	case 1:
+		_, _, err = s.ReceiveFrameWithEnd(ctx)
+	case 2:
+		err = s.SendMessage(ctx, d)
+	}
+	vAssert(!conn.hung, "every-blocking-call-watches-the-context")
+	if conn.stallAt != 0 && conn.calls >= conn.stallAt {
+		vCover("stalled-and-cancelled")
+		vAssert(err != nil && errors.Is(err, context.Canceled), "returns-the-contexts-error")
+		vAssert(conn.closed, "connection-closed-on-cancellation")
+	} else {
+		vCover("never-stalled")
+		vAssert(err == nil, "completes-when-the-peer-does-not-stall")
+		vAssert(!conn.closed, "no-close-without-cancellation")
 	}
 }
